@@ -9,7 +9,7 @@
 (*   v    - the room version (selects the algorithm and the auth rules)    *)
 (*                                                                         *)
 (* Event record: [type, sender, skey, membership, plu, jr, prev, auth,     *)
-(*                depth, ts, idr, sha, rejected]                           *)
+(*                depth, ts, idr, sha, rejected, addl]                           *)
 (*   type in {"create","member","pl","jr","topic"}; skey = target user of  *)
 (*   a member event, "" otherwise; plu = the users map of a power-levels    *)
 (*   content (thresholds keep their defaults in room models);              *)
@@ -76,7 +76,7 @@ PowerEvents(E, C, Full, U) ==
 (* Reverse topological power ordering (R1, R2, R5)                         *)
 (***************************************************************************)
 CreateId(E) == CHOOSE e \in DOMAIN E : E[e].type = "create"
-CreatorsOf(E) == {E[CreateId(E)].sender}
+CreatorsOf(E) == {E[CreateId(E)].sender} \cup E[CreateId(E)].addl   \* create sender + additional_creators
 
 \* R2: the sender's power is read from the power-levels event among the event's own auth events
 SenderPower(E, v, e) ==
@@ -118,7 +118,8 @@ StOf(E, S) ==
         pl == ForKey(E, S, <<"pl", "">>)
         jr == ForKey(E, S, <<"jr", "">>)
         memOf(u) == ForKey(E, S, <<"member", u>>)
-    IN [create |-> [BaseSt.create EXCEPT !.present = cr # {}],
+    IN [create |-> [BaseSt.create EXCEPT !.present = cr # {},
+                                        !.addl = IF cr = {} THEN {} ELSE E[CHOOSE c \in cr : TRUE].addl],
         pl |-> IF pl = {} THEN [present |-> FALSE, c |-> EmptyPL]
                ELSE [present |-> TRUE, c |-> PLCOf(E, CHOOSE p \in pl : TRUE)],
         jr |-> IF jr = {} THEN "absent" ELSE E[CHOOSE j \in jr : TRUE].jr,
